@@ -254,6 +254,106 @@ def _split_ok(st):
     return True
 
 
+def ifexp_to_if(fn):
+    """x = A if c else B  ->  if c: x = A else: x = B ;  return A if c else B  ->  if c: return A else: return B"""
+    changed = False
+    for body in _blocks(fn):
+        for i, st in enumerate(body):
+            if isinstance(st, ast.Return) and isinstance(st.value, ast.IfExp):
+                e = st.value
+                body[i] = ast.If(test=e.test, body=[ast.Return(value=e.body)], orelse=[ast.Return(value=e.orelse)])
+                changed = True
+            elif isinstance(st, ast.Assign) and isinstance(st.value, ast.IfExp) and len(st.targets) == 1 and isinstance(st.targets[0], ast.Name):
+                e = st.value
+                t = st.targets[0].id
+                body[i] = ast.If(test=e.test, body=[ast.Assign(targets=[ast.Name(id=t, ctx=ast.Store())], value=e.body, lineno=st.lineno)],
+                                 orelse=[ast.Assign(targets=[ast.Name(id=t, ctx=ast.Store())], value=e.orelse, lineno=st.lineno)])
+                changed = True
+    if changed:
+        ast.fix_missing_locations(fn)
+    return changed
+
+
+def push_returns(fn):
+    """<if / try whose every branch ends by assigning r> ; return r   ->   the same with `return <value>` in every branch
+    (r is a local that is read nowhere else)"""
+    changed = False
+    sc = _Scope(fn)
+    for body in _blocks(fn):
+        if len(body) >= 2 and isinstance(body[-1], ast.Return) and isinstance(body[-1].value, ast.Name):
+            r = body[-1].value.id
+            st = body[-2]
+            end_st = (getattr(st, "end_lineno", 0), getattr(st, "end_col_offset", 0))
+            later_loads = [l for l in sc.loads.get(r, []) if _pos(l) > end_st]
+            if r in sc.nested_names or r in sc.comp_names or len(later_loads) != 1 or _in_loop(fn, st):
+                continue
+
+            def leaves_assign(b):
+                if not b:
+                    return False
+                last = b[-1]
+                if isinstance(last, ast.Assign) and len(last.targets) == 1 and isinstance(last.targets[0], ast.Name) and last.targets[0].id == r:
+                    return True
+                if isinstance(last, ast.If) and last.orelse:
+                    return leaves_assign(last.body) and leaves_assign(last.orelse)
+                return False
+
+            def rewrite(b):
+                last = b[-1]
+                if isinstance(last, ast.Assign):
+                    b[-1] = ast.Return(value=last.value)
+                else:
+                    rewrite(last.body)
+                    rewrite(last.orelse)
+            if isinstance(st, ast.If) and not st.orelse and leaves_assign(st.body) and isinstance(st.body[-1], ast.Assign):
+                # if c: ... ; r = e      ->   if c: ... ; return e          (the `return r` that follows stays for the other path)
+                st.body[-1] = ast.Return(value=st.body[-1].value)
+                changed = True
+                continue
+            if isinstance(st, ast.If) and st.orelse and leaves_assign(st.body) and leaves_assign(st.orelse):
+                rewrite(st.body)
+                rewrite(st.orelse)
+                del body[-1]
+                changed = True
+            elif isinstance(st, ast.Try) and not st.finalbody and not st.orelse and leaves_assign(st.body) and all(leaves_assign(h.body) for h in st.handlers):
+                rewrite(st.body)
+                for h in st.handlers:
+                    rewrite(h.body)
+                del body[-1]
+                changed = True
+    if changed:
+        ast.fix_missing_locations(fn)
+    return changed
+
+
+def dict_loops(fn):
+    """d = OrderedDict() ; for t in it: d[k] = e    ->    d = OrderedDict([(k, e) for t in it])    (same keys, same order, later
+    duplicates win in both)"""
+    did = False
+    for body in _blocks(fn):
+        i = 0
+        while i + 1 < len(body):
+            a, lp = body[i], body[i + 1]
+            if isinstance(a, ast.Assign) and len(a.targets) == 1 and isinstance(a.targets[0], ast.Name) and isinstance(a.value, ast.Call) and not a.value.args and not a.value.keywords \
+                    and dotted(a.value.func) in ("OrderedDict", "dict", "collections.OrderedDict") and isinstance(lp, ast.For) and not lp.orelse and len(lp.body) == 1 \
+                    and isinstance(lp.body[0], ast.Assign) and len(lp.body[0].targets) == 1 and isinstance(lp.body[0].targets[0], ast.Subscript) \
+                    and isinstance(lp.body[0].targets[0].value, ast.Name) and lp.body[0].targets[0].value.id == a.targets[0].id:
+                d_ = a.targets[0].id
+                k_, e_ = lp.body[0].targets[0].slice, lp.body[0].value
+                tnames = {x.id for x in ast.walk(lp.target) if isinstance(x, ast.Name)}
+                mentions = any(isinstance(x, ast.Name) and x.id == d_ for part in (k_, e_, lp.iter) for x in ast.walk(part))
+                later = [x for st in body[i + 2:] for x in ast.walk(st) if isinstance(x, ast.Name) and x.id in tnames]
+                sc = _Scope(fn)
+                if not mentions and not later and all(len(sc.stores.get(t_, [])) == 1 for t_ in tnames) and not any(t_ in sc.nested_names or t_ in sc.comp_names for t_ in tnames):
+                    comp = ast.ListComp(elt=ast.Tuple(elts=[k_, e_], ctx=ast.Load()), generators=[ast.comprehension(target=lp.target, iter=lp.iter, ifs=[], is_async=0)])
+                    body[i:i + 2] = [ast.Assign(targets=[ast.Name(id=d_, ctx=ast.Store())], value=ast.Call(func=a.value.func, args=[comp], keywords=[]), lineno=a.lineno)]
+                    ast.fix_missing_locations(fn)
+                    did = True
+                    continue
+            i += 1
+    return did
+
+
 def _is_none_return(st):
     return isinstance(st, ast.Return) and (st.value is None or (isinstance(st.value, ast.Constant) and st.value.value is None))
 
@@ -299,6 +399,10 @@ def canon_block(body, tail=False):
                     out.append(ast.Expr(value=t))
                 out.append(rest[-1])
                 return out
+            if not B and A and isinstance(A[-1], ast.Return) and A[-1].value is not None and rest and isinstance(rest[0], ast.Return) and rest[0].value is not None \
+                    and ast.unparse(rest[0].value) == ast.unparse(A[-1].value) and len(A) > 1:
+                # if t: stmts ; return R      followed by      return R     ->  the inner return is redundant
+                A = A[:-1]
             if tail and not B and len(A) == 1 and _is_none_return(A[0]) and rest:
                 # guard clause:  if t: return ; rest   ==   if not t: rest      (falling off `rest` ends the function)
                 inner = canon_block(rest, True)
@@ -1347,6 +1451,9 @@ def canonical(fn_node, helpers=None, method_helpers=None, sigs=None):
     drop_asserts(fn)
     fn = _Spellings().visit(fn)
     ast.fix_missing_locations(fn)
+    ifexp_to_if(fn)
+    fn = clone(fn)
+    push_returns(fn)
     fn.body = canon_block(fn.body, True) or [ast.Pass()]
     ast.fix_missing_locations(fn)
     fn = _IfExpTests().visit(fn)
@@ -1354,8 +1461,13 @@ def canonical(fn_node, helpers=None, method_helpers=None, sigs=None):
     fn = clone(fn)
     fn = split_versions(fn)
     fn = inline_temps(fn)
-    if loops_to_comprehensions(fn):
+    lc = loops_to_comprehensions(fn)
+    dc = dict_loops(fn)
+    if lc or dc:
         fn = inline_temps(clone(fn))
+    for n in ast.walk(fn):  # the wording of a message may have reached its raise through a temporary
+        if isinstance(n, ast.Raise) and isinstance(n.exc, ast.Call):
+            n.exc.args = [_no_wording(a_) for a_ in n.exc.args]
     fn = sort_pure_runs(clone(fn))
     fn = _SortKeywords().visit(_Spellings().visit(fn))
     ast.fix_missing_locations(fn)
